@@ -1328,6 +1328,15 @@ where
         // A damaged change record: error + no effect expected; success tolerated only if
         // it lands exactly on the record's true target.
         if matches!(&expected, Err(x) if x == "?damaged") {
+            if result.is_ok() && matches!(op, VecOp::FaultTruncateThenRollback(_)) && check {
+                // C16: a truncated change record is refused — even when the bytes that are
+                // missing would not have been needed to undo the commit
+                viols.push(Violation {
+                    property: "C16,C17".into(),
+                    signature: format!("{class}|{kind}|{situation}|truncated_record_accepted"),
+                    detail: format!("rollback succeeded on a change record that was cut short ({op:?})"),
+                });
+            }
             if result.is_ok() {
                 let target = pre_records_target.clone().unwrap();
                 self.model.restore(&target);
@@ -1339,7 +1348,10 @@ where
                 }
                 self.model.uncommitted = false;
                 expected = Ok(String::new());
-                self.bump("fault:immaterial_damage_accepted");
+                self.bump(match op {
+                    VecOp::FaultTruncateThenRollback(_) => "fault:immaterial_damage_accepted:truncated_record",
+                    _ => "fault:immaterial_damage_accepted:length_field",
+                });
             } else {
                 expected = Err("*".into());
             }
